@@ -1,5 +1,5 @@
 """Per-property driver: model check -> emit behaviours -> replay on the real code -> validate -> verdict."""
-import json, os, sys, time, random, shutil
+import json, os, sys, time, random, shutil, subprocess
 
 import engine as E
 from catalogue import INSTANCES, EXTRA
@@ -101,6 +101,30 @@ def run_property(prop, tier, seed, replay_file=None):
                 os.makedirs(vdir, exist_ok=True)
                 p = os.path.join(vdir, "violation-%d.json" % len(all_new))
                 json.dump(dict(property=prop, instance=c, instance_name=name, violation=v, note="free-running round %s of %s: re-run the check; not replayable step by step" % (v["run"], trace)), open(p, "w"), indent=1)
+                all_new.append((v, p))
+            all_listed += listed
+            continue
+        if name.startswith("ids:"):
+            # C02 "ids are distinct for distinct spans": ids are a random per-thread prefix plus a counter, so only
+            # many threads can show a clash; the recorded ids go through Abs's Ids clause (TraceAbs)
+            n = int(name[4:])
+            d = os.path.join(E.OUT, "replay", prop + "-ids")
+            os.makedirs(d, exist_ok=True)
+            trace = os.path.join(d, "trace.ndjson")
+            r = subprocess.run([E.HBIN, "ids", "--threads", str(n), "--out", trace], stdout=subprocess.PIPE, stderr=subprocess.PIPE, text=True, timeout=600)
+            if r.returncode != 0:
+                raise E.ToolError("ids harness failed: %s" % r.stderr[-1000:])
+            viols, consumed = E.validate(trace, prop + "-ids", parts=1)
+            new, listed = E.classify(viols, prop, known)
+            tot["runs"] += consumed
+            per_instance.append(dict(instance=name, states=0, transitions=0, depth=0, emitted=1, replayed=1, validated=consumed, steering_misses=0, tlc_wall_s=0,
+                                     model_violates=False, timed_out=False, other_property_violations=0, shuffled=0, threads=n))
+            E.log("%s: the ids given to 3 spans on each of %d short-lived threads validated (non-zero, pairwise distinct)" % (name, n))
+            for v in new:
+                vdir = os.path.join(E.OUT, prop)
+                os.makedirs(vdir, exist_ok=True)
+                p = os.path.join(vdir, "violation-%d.json" % len(all_new))
+                shutil.copy(trace, p)
                 all_new.append((v, p))
             all_listed += listed
             continue
